@@ -965,12 +965,33 @@ class C04(Property):
         "float and decimal.Decimal are opaque: float()/Decimal(), '%f', comparison with zero, bool(), int() of such values are "
         "precomputed by the standard library and handed to the model as tokens/tables",
         "blinker dispatch modelled as appending to a log",
+        "natives of unusual types (UserString, str / int / float / Decimal / date subclasses with their own __str__, IntEnum members, "
+        "Fraction, aware time, bytes, bytearray): the Lean model holds plain natives only and is given, per case, a PROJECTION (case key "
+        "`proj`): the plain native whose documented outcome for this kind (ref_set) equals that of the exotic input - its characters "
+        "for a str subclass, int(x) / float(x) / the base-type value for numeric kinds, the plain date / naive time for temporal kinds, "
+        "else an object seen only through str(x) and bool(x) (the model's `other`).  The subclass identity and a tzinfo of a STORED "
+        "value / raw are not visible to the model (scalars_g6.model_view); the oracle sees and asserts them on the real objects.  Where no "
+        "projection has the same documented outcome (evidence tag exotic-oracle-only, about 10% of the exotic cases: text-likes that are "
+        "no str handed to Boolean / Temporal kinds, bytes whose failure text is their repr) the case runs through the real code and the "
+        "oracle only",
     ]
     assumptions = [
-        "inputs are None, str, int, bool, float, Decimal, naive date/time/datetime, or an object with only str() and bool(); "
-        "bytes are outside the property's quantifier (None/text/number/boolean/native-temporal) and NOT claimed: on HEAD Date().set(b'2020-01-02') "
-        "and JoinedString().set(b'a,b') raise TypeError and Integer().set(b' 12 ') gives 12; no case contains bytes (a value that is not one of the "
-        "listed natives makes has_model False); tz-aware times and subclasses with overridden dunder methods are outside the model too",
+        "inputs are None, str, int, bool, float, Decimal, naive date/time/datetime, an object with only str() and bool(), and (scalar cases; "
+        "h15) natives of unusual but legitimate types: collections.UserString, a str subclass with its own __str__ and a class-keeping strip(), "
+        "int / float / Decimal / date subclasses with their own __str__, IntEnum members, Fraction, datetime handed to a Date, time with tzinfo, "
+        "bytes, bytearray; their texts padded with ASCII and non-ASCII whitespace.  Container (tree) cases keep to the plain natives",
+        "what the reference asserts for them, from the documentation: String - 'coerced with str() and stripped if strip' (a str instance of "
+        "any subclass is text already: its characters count, not its __str__; the CLASS of the stored text is not asserted); numbers - "
+        "type_(value), an instance of type_ exactly, text by the format; Boolean - synonyms for str instances, bool(value) for non-text; "
+        "temporals - an instance of type_ (subclass instances too) is returned unchanged, a str is parsed, anything else is unadaptable.  NOT "
+        "determined by the documentation and NOT asserted (flag / value / text; 'never raises', raw, signal and re-set clauses still are): "
+        "whether a UserString / bytes / bytearray counts as 'text' for Boolean ('if value is text') and Temporal ('if a string') - on HEAD "
+        "they are non-text (Boolean: bool(x); Temporal: unadaptable, except bytes: KF-C04-e)",
+        "bytes are outside the property's quantifier (None/text/number/boolean/native-temporal): Date().set(b'2020-01-02') raises TypeError on HEAD "
+        "(recorded as KF-C04-e with a class predicate, c04_findings.json); JoinedString().set(b'a,b') raises too (not generated: tree cases have "
+        "no bytes); Integer().set(b' 12 ') gives 12 as type_(value) does",
+        "re-set clause 'the same .value': compared as values of the base type (a date subclass instance equals the plain date with the same "
+        "fields); an aware time differs from the naive time its text reads back as (filed under KF-C04-b: the text drops the offset)",
         "a None value has text '' by documentation; the literal value clause for None is checked and fails for the kinds that adapt '' "
         "(recorded as KF-C04-d), the theorem reset_value_partial is for values other than None",
         "Enum/Constrained valid_values contain None/str/int/bool/date/time natives (Python == on them)",
@@ -981,7 +1002,10 @@ class C04(Property):
             "membership predicates) x an input drawn 60% from a kind-appropriate mostly-valid pool (padded, transliterated to random Unicode Nd "
             "decades, '+'/underscore forms, mutated date/time texts) and 40% from the menagerie (None, {NT} texts incl. empty/whitespace/"
             "exponent/NaN/inf/underscore/full-width/4300- and 4301-digit strings, out-of-range dates, ints up to 10**5000, bools, 17 floats, 15 "
-            "Decimals incl. sNaN and 1E+5000-class values, 12 native date/time/datetime values, objects with only str()/bool()); 30% of scalar "
+            "Decimals incl. sNaN and 1E+5000-class values, 12 native date/time/datetime values, objects with only str()/bool()); 15% of the scalar "
+            "cases hand the kind a native of an unusual type (scalars_g6.random_exotic: 75% suiting the kind - text-likes UserString / object with "
+            "__str__ / str subclass / bytes / bytearray whose text suits the kind, numeric subclasses / IntEnum / Fraction / bool for numbers and "
+            "booleans, date subclass / datetime / aware time for temporals - 25% any; padded with ASCII and non-ASCII whitespace 77%); 30% of scalar "
             "cases first set() another value on the same element. 30% container cases: random schema of depth <= 3 over List/Array, Dict "
             "(subset/duck policy), DateYYYYMMDD, JoinedString (4 separators, prune on/off) and 8 scalar kinds, type-directed mostly-valid "
             "input plus 15% hostile shapes (non-iterables, strings, 2-character strings as pairs, pair lists with duplicate and unknown keys), "
